@@ -286,7 +286,7 @@ class Focused(Part):
                 raise
             return out.sched
 
-        runs, found, inc = explore.single_preemptions(one, n)
+        runs, found, inc = explore.single_preemptions(one, n, explore.plan_stride(n, ctx.tier), ctx.seed, max_runs=None if ctx.tier == "thorough" else 900)
         viol = [(v, dict(case, single=list(la))) for v, la in found]
         if inc:
             ctx.count("inconclusive_runs", inc)
